@@ -67,7 +67,7 @@ func itoa(i int) string { return strconv.Itoa(i) }
 
 // ---------------------------------------------------------------- documents for the RFC 6902 harnesses
 
-const nDocShapes = 22
+const nDocShapes = 23
 
 // docShape builds document shape i; leaves are symbolic.
 func docShape(i int, pfx string) *JV {
@@ -123,6 +123,9 @@ func docShape(i int, pfx string) *JV {
 		// a member name spelled twice (valid JSON; the last value is the member's value). Outside C01's stated
 		// domain: only the error-class clauses (C08) and panic freedom (C04) are asserted on it.
 		return jObj().with("a", n(0)).with("b", n(1)).with("a", n(2))
+	case 22:
+		// members named by the empty string, at the root and nested
+		return jObj().with("", n(0)).with("a", jObj().with("", n(1)).with("b", n(2)))
 	case 18:
 		// member names made of the two RFC 6901 metacharacters: every decoding order slip lands on a sibling
 		return jObj().with("~1", n(0)).with("/", n(1)).with("~0", n(2)).with("~", jObj().with("/0", n(3)).with("~1", n(4)))
@@ -170,9 +173,12 @@ func chooseMask(name string, mask, n int) int {
 
 var numLookalikes = []string{"0x1", "0b1", "0o1", "1e0", "1_0", " 1"}
 
-// genTok builds one reference token. kinds (bits of tokMask): 0 = one symbolic byte, 1 = two, 2 = "a~0b", 3 = "c~1d", 4 = three symbolic bytes, 5 = "a", 6 = ~0/~1 optionally followed by 0/1, 7 = a number look-alike (0x1, 0b1, 1e0, 1_0 ...).
+// indices at the edge of the int range: -2^63 (its negation overflows), 2^63-1, 2^64 (wraps to 0 in a careless parser)
+var edgeIndices = []string{"-9223372036854775808", "9223372036854775807", "18446744073709551616"}
+
+// genTok builds one reference token. kinds (bits of tokMask): 0 = one symbolic byte, 1 = two, 2 = "a~0b", 3 = "c~1d", 4 = three symbolic bytes, 5 = "a", 6 = ~0/~1 optionally followed by 0/1, 7 = a number look-alike (0x1, 0b1, 1e0, 1_0 ...), 8 = the empty token, 9 = an index at the edge of the int range (-2^63, 2^63-1, 2^64).
 func genTok(name string, tokMask int) Tok {
-	switch chooseMask(name+".kind", tokMask, 8) {
+	switch chooseMask(name+".kind", tokMask, 10) {
 	case 0:
 		b := []byte{symTokByte(name + ".0")}
 		return Tok{Raw: b, Name: b}
@@ -199,6 +205,12 @@ func genTok(name string, tokMask int) Tok {
 			nm = append(nm, byte('0'+tail-1))
 		}
 		return Tok{Raw: raw, Name: nm}
+	case 9:
+		b := []byte(edgeIndices[vx.Choose(name+".edge", len(edgeIndices))])
+		return Tok{Raw: b, Name: b}
+	case 8:
+		// the empty token: the member whose name is the empty string
+		return Tok{Raw: []byte{}, Name: []byte{}}
 	case 7:
 		// spellings that look like numbers to a lenient parser (base prefixes, octal-looking, underscores, exponent,
 		// sign, surrounding space) but name no array location: on an array every one of them is an error
